@@ -770,4 +770,11 @@ example : LinErr.text "e" "r" "l" "u" (.missingFiniteBounds []) =
     "Cannot linearize \"e\" in r with derived bounds [l, u]. Variables without finite bounds: none identified. Declare finite bounds or add constraints from which finite bounds can be inferred" := by
   rfl
 
+/-- the std constants a declared bound can be written with are the IEEE infinities (read from `rooc_std.rs`): with
+any finite value an exact lowering over `x as Real(-10, Infinity)` would proceed with a big-M of that size instead of
+reporting `MissingFiniteBounds` (harness stream `text-infinity-constant`). -/
+theorem std_infinity_constants_are_infinite :
+    Gen.stdConstantValues = [("Infinity", "f64::INFINITY"), ("MinusInfinity", "f64::NEG_INFINITY"),
+      ("PI", "std::f64::consts::PI")] := rfl
+
 end Rooc.Props.C08
